@@ -53,6 +53,21 @@ def variants(rng, g):
             dm["ancestors"], dm["proportions"] = [a for a, _ in z], [p for _, p in z]
     yield ("ancestor-order", True, d)
 
+    for i, dm in enumerate(base["demes"]):
+        pr = dm["proportions"]
+        if len(pr) >= 2 and not math.isclose(pr[0], pr[1], rel_tol=1e-9, abs_tol=1e-12):
+            d = copy.deepcopy(base)
+            d["demes"][i]["proportions"] = [pr[1], pr[0]] + pr[2:]
+            yield ("swap-ancestor-proportions", False, d)
+            break
+    for i, p in enumerate(base["pulses"]):
+        pr = p["proportions"]
+        if len(pr) >= 2 and not math.isclose(pr[0], pr[1], rel_tol=1e-9, abs_tol=1e-12):
+            d = copy.deepcopy(base)
+            d["pulses"][i]["proportions"] = [pr[1], pr[0]] + pr[2:]
+            yield ("swap-pulse-proportions", False, d)
+            break
+
     def bump(x, f):
         return x * f if x != 0 and not math.isinf(x) else x + (f - 1)
     # one numeric attribute, inside and outside the tolerance
